@@ -27,14 +27,15 @@ def r1_registry(chk: Check):
     f = tree.func("scheduler.base", "Scheduler.aio_registerJob")
     g = CFG(f.node)
 
+    rd1 = ReachingDefs(g)
+
     def classify(n):
         t = src(n.ast)
-        if any(isinstance(x, ast.NamedExpr) for x in ast.walk(n.ast)):
-            class W(ast.NodeTransformer):
-                def visit_NamedExpr(self, x):
-                    return self.visit(x.value)
-            from ..astq import ast_copy
-            t = src(W().visit(ast_copy(n.ast)))
+        tc = rd1.canon(n.ast, n)
+        if tc in ("self.jobs.get(job.identifier) is None", "self.jobs.get(job.identifier, None) is None"):
+            return ("present", False)
+        if tc in ("self.jobs.get(job.identifier)", "self.jobs.get(job.identifier, None)"):
+            return ("present", True)
         if t == "self.exitmode":
             return ("exitmode", True)
         if t in ("self.jobs.get(job.identifier) is None", "self.jobs.get(job.identifier, None) is None"):
